@@ -887,3 +887,154 @@ Theorem C12_same_but_comments_outside_math_embeds : forall lt d d',
 Proof. exact same_but_comments_outside_math_up. Qed.
 Print Assumptions C12_same_but_comments_embeds.
 Print Assumptions C12_same_but_comments_outside_math_embeds.
+
+(** * Source level over the THIRD document grammar (composition with [C02_parse_unparse3_partial])
+
+    [Doc/DocGrammar3.v]: the extended grammar plus [WPar3] (a whitespace run with two or more
+    newlines in a context without the paragraph specials: pending characters, like text),
+    [PArg3] (a paragraph break as the single-token argument of a call: a [\n\n] specials node
+    without arguments, or a characters node) and [BGrp3 ws oc cc body tr] (a delimited group
+    written directly in the body of a delimited argument; its body [bitem*]: text [BText],
+    COMMENTS [BCmt ws text post] and nested groups [BGrp]).
+
+    [sbc3 vb eqn i i'] ([Proofs/Compose3Comments.v]): as [sbc2] on the constructors of the
+    extended grammar; [WPar3] / [PArg3] identical; [BGrp3]: same whitespace, delimiters and
+    trailing whitespace, bodies related by [sbcb_items] (same constructors and whitespace /
+    character / post-space fields; the texts of the [BCmt] comments free).
+    - [same_but_comments3 := sbc_doc3 false _]: comment texts ([Cmt3], [Pre3], [BCmt]) free everywhere;
+    - [same_but_comments_outside_math3 lt := sbc_doc3 true (is_eqenv lt)]: free everywhere except
+      inside formulas and equation environments. *)
+From PLV Require Import Doc.DocGrammar3 Proofs.Compose3Comments Proofs.Compose3CommentsEmbed.
+
+(** the meanings of two such documents are related (any context — with or without the
+    paragraph specials —, any parsing state, any [vb] / [eqn]) *)
+Theorem C12_trees_same_but_comments3 : forall cx vb eqn ps d d',
+  sbc_doc3 vb eqn d d' -> ok_doc3 cx d = true -> ok_doc3 cx d' = true ->
+  vallq (unparse3 d) (unparse3 d') false vb eqn (fst (tree_of3 cx ps 0 d)) (fst (tree_of3 cx ps 0 d')).
+Proof.
+  intros cx vb eqn ps d d' W O O'.
+  exact (tree_sbc3 cx (unparse3 d) (unparse3 d') vb eqn ps d d' W (ok_doc_arity3 cx d O) (ok_doc_arity3 cx d' O')
+           eq_refl eq_refl).
+Qed.
+Print Assumptions C12_trees_same_but_comments3.
+
+(** two documents of the third grammar that differ only in the text of their comments —
+    anywhere, including inside the groups written directly in a delimited argument — are
+    converted to the same text when [keep_comments] is off and the math mode is not verbatim.
+
+    PARTIAL: the third grammar of [C02_parse_unparse3_partial] (see notes/C02.md for what it
+    leaves out).  Under the default context (which has the paragraph specials) no document
+    with a [WPar3] item satisfies [ok_doc3]; that item kind is covered at tree level, for
+    every context, by [C12_trees_same_but_comments3] + [C12_relational2]. *)
+Theorem C12_source_level3_partial : forall o d d',
+  same_but_comments3 d d' ->
+  ok_doc3 Gen.GenWalkerCtx.default_ctx d = true -> ok_doc3 Gen.GenWalkerCtx.default_ctx d' = true ->
+  o_keep_comments o = false -> o_math o <> MMVerbatim ->
+  exists r, latex_to_text o (unparse3 d) false = Some r /\ latex_to_text o (unparse3 d') false = Some r.
+Proof. exact source_level3. Qed.
+Print Assumptions C12_source_level3_partial.
+
+(** ALL four math modes: formulas and equation environments identical *)
+Theorem C12_source_level3_all_modes_partial : forall o d d',
+  same_but_comments_outside_math3 Gen.GenL2TCtx.default_l2tctx d d' ->
+  ok_doc3 Gen.GenWalkerCtx.default_ctx d = true -> ok_doc3 Gen.GenWalkerCtx.default_ctx d' = true ->
+  o_keep_comments o = false ->
+  exists r, latex_to_text o (unparse3 d) false = Some r /\ latex_to_text o (unparse3 d') false = Some r.
+Proof. exact source_level_all_modes3. Qed.
+Print Assumptions C12_source_level3_all_modes_partial.
+
+(** the theorems over the extended grammar are instances: related documents of the extended
+    grammar are, embedded by [up2_doc] (same side conditions, written form and meaning:
+    [C02_extended_grammar_embeds]), related documents of the third *)
+Theorem C12_same_but_comments2_embeds : forall vb eqn d d',
+  sbc_doc2 vb eqn d d' -> sbc_doc3 vb eqn (up2_doc d) (up2_doc d').
+Proof. exact sbc_doc_up2. Qed.
+Print Assumptions C12_same_but_comments2_embeds.
+
+(** non-vacuity:
+    [a %c1\n\item[see [1 %c2\n] x]\textbf\n\ny $\sqrt[n[%c3\n]]{x}$\n]
+    — a comment at top level, a comment INSIDE a group written directly in the optional argument
+    of [\item] ([BGrp3] / [BCmt]), a paragraph break as the argument of [\textbf] ([PArg3]), a
+    comment inside such a group inside a formula.  [dA], [dB] differ in c1, c2 (same formula): same
+    output in verbatim mode; [dA], [dC] differ in all three: same output in text mode, different
+    output in verbatim mode *)
+Section SourceExample3.
+  Open Scope N_scope.
+  Let mkd (c1 c2 c3 : str) : doc3 :=
+    {| d_items3 :=
+      [Text3 [] [97]; Cmt3 [32] c1 [10];
+       Mac3 [] [105;116;101;109] []
+         [Brk3 [] 91 93 [Text3 [] [115;101;101]; BGrp3 [32] 91 93 [BText [] [49]; BCmt [32] c2 [10]] []; Text3 [32] [120]] []];
+       Mac3 [] [116;101;120;116;98;102] [] [PArg3 [] []]; Text3 [] [121];
+       Math3 [32] MDollar
+         [Mac3 [] [115;113;114;116] []
+            [Brk3 [] 91 93 [Text3 [] [110]; BGrp3 [] 91 93 [BCmt [] c3 [10]] []] []; Grp3 [] [Text3 [] [120]] []]] []];
+     d_trail3 := [10] |}.
+  Let dA := mkd [83] [73;78] [81].
+  Let dB := mkd [88;88;88] [] [81].
+  Let dC := mkd [88;88;88] [] [].
+  Let o_of (mm : mathmode) : opts :=
+    {| o_math := mm; o_keep_comments := false; o_sls := sls_bos; o_kbg := false; o_kbg_minlen := 0 |}.
+  Let cx0 := Gen.GenWalkerCtx.default_ctx.
+  Example C12_source_level3_nonvacuous :
+    same_but_comments3 dA dC /\ same_but_comments_outside_math3 Gen.GenL2TCtx.default_l2tctx dA dB
+    /\ ok_doc3 cx0 dA = true /\ ok_doc3 cx0 dB = true /\ ok_doc3 cx0 dC = true
+    /\ length (unparse3 dA) = 56%nat /\ unparse3 dA <> unparse3 dB /\ unparse3 dA <> unparse3 dC
+    (* text mode: [a \n\n  see 1 \n x\n\ny √(x)] for all three *)
+    /\ option_map fst (latex_to_text (o_of MMText) (unparse3 dA) false)
+       = Some [97; 32; 10; 10; 32; 32; 115; 101; 101; 32; 49; 32; 10; 32; 120; 10; 10; 121; 32; 8730; 40; 120; 41]
+    /\ latex_to_text (o_of MMText) (unparse3 dA) false = latex_to_text (o_of MMText) (unparse3 dC) false
+    (* verbatim mode: [a \n\n  see 1 \n x\n\ny $\sqrt[n[%Q\n]]{x}$] *)
+    /\ option_map fst (latex_to_text (o_of MMVerbatim) (unparse3 dA) false)
+       = Some [97; 32; 10; 10; 32; 32; 115; 101; 101; 32; 49; 32; 10; 32; 120; 10; 10; 121; 32; 36; 92; 115; 113; 114;
+               116; 91; 110; 91; 37; 81; 10; 93; 93; 123; 120; 125; 36]
+    /\ latex_to_text (o_of MMVerbatim) (unparse3 dA) false = latex_to_text (o_of MMVerbatim) (unparse3 dB) false
+    /\ latex_to_text (o_of MMVerbatim) (unparse3 dA) false <> latex_to_text (o_of MMVerbatim) (unparse3 dC) false.
+  Proof.
+    assert (W1 : same_but_comments3 dA dC)
+      by (unfold same_but_comments3, sbc_doc3; cbn; repeat split; discriminate).
+    assert (W2 : same_but_comments_outside_math3 Gen.GenL2TCtx.default_l2tctx dA dB)
+      by (unfold same_but_comments_outside_math3, sbc_doc3; cbn; repeat split; try discriminate;
+          try (intros _ Q; vm_compute in Q; discriminate)).
+    split; [exact W1|]. split; [exact W2|].
+    split; [vm_compute; reflexivity|]. split; [vm_compute; reflexivity|]. split; [vm_compute; reflexivity|].
+    split; [vm_compute; reflexivity|]. split; [vm_compute; discriminate|]. split; [vm_compute; discriminate|].
+    split; [vm_compute; reflexivity|].
+    split.
+    { assert (H : exists r, latex_to_text (o_of MMText) (unparse3 dA) false = Some r
+                            /\ latex_to_text (o_of MMText) (unparse3 dC) false = Some r)
+        by (apply C12_source_level3_partial;
+            [exact W1 | vm_compute; reflexivity | vm_compute; reflexivity | reflexivity | discriminate]).
+      destruct H as (r & A & B). congruence. }
+    split; [vm_compute; reflexivity|].
+    split.
+    { assert (H : exists r, latex_to_text (o_of MMVerbatim) (unparse3 dA) false = Some r
+                            /\ latex_to_text (o_of MMVerbatim) (unparse3 dB) false = Some r)
+        by (apply C12_source_level3_all_modes_partial;
+            [exact W2 | vm_compute; reflexivity | vm_compute; reflexivity | reflexivity]).
+      destruct H as (r & A & B). congruence. }
+    vm_compute. discriminate.
+  Qed.
+
+  (** tree level, a context WITHOUT the paragraph specials ([\m] with one mandatory argument):
+      [a\n\n%c\nb\m\n\n] — a [WPar3] run next to a comment, a [PArg3] argument that is a characters
+      node; the two meanings are related *)
+  Let bare : context :=
+    {| cx_macros := [([109], {| sp_args := APStd [{| a_spec := [123]; a_kind := AKExpr true; a_delta := ADNone |}];
+                              sp_body_math := false |})];
+       cx_envs := []; cx_specials := []; cx_unk_macro := None; cx_unk_env := None |}.
+  Let mkw (c : str) : doc3 :=
+    {| d_items3 := [Text3 [] [97]; WPar3 [] []; Cmt3 [] c [10]; Text3 [] [98]; Mac3 [] [109] [] [PArg3 [] []]];
+       d_trail3 := [] |}.
+  Example C12_trees_same_but_comments3_nonvacuous :
+    same_but_comments3 (mkw [83]) (mkw [88;88]) /\ ok_doc3 bare (mkw [83]) = true /\ ok_doc3 bare (mkw [88;88]) = true
+    /\ unparse3 (mkw [83]) = [97;10;10;37;83;10;98;92;109;10;10]
+    /\ parse_top (unparse3 (mkw [83])) false bare (Parse.ParseWire.walker_state bare) = doc_result3 bare (mkw [83])
+    /\ length (fst (tree_of3 bare (Parse.ParseWire.walker_state bare) 0 (mkw [83]))) = 4%nat.
+  Proof.
+    split; [unfold same_but_comments3, sbc_doc3; cbn; repeat split|].
+    vm_compute. repeat split.
+  Qed.
+End SourceExample3.
+Print Assumptions C12_source_level3_nonvacuous.
+Print Assumptions C12_trees_same_but_comments3_nonvacuous.
